@@ -280,14 +280,23 @@ def judge_c06(ctx, idx, op, impl, mi, ms, reason):
                 parts = impl.split(";")
                 n = int(op[1])
                 want = lens[:n]
-                got = [p.rsplit("@", 1)[1] for p in parts if p.startswith("ok:")]
+                # (a frame the message decoder refuses counts like any other: the call that meets it takes exactly that frame)
+                got = [p.rsplit("@", 1)[1] for p in parts[:len(lens)] if p.startswith("ok:") or p.startswith("err@")]
                 if got != want[:len(got)] or len(got) != min(n, len(lens)):
                     f.append(Finding("property", idx, "reading the stream does not yield one message per frame consuming exactly that frame", expected="consumed " + ",".join(want), observed=impl[-200:], name="C06_read_frame"))
         elif impl != st[key]:
             f.append(Finding("property", idx, "the result of reading depends on how the octets are segmented / where Pending is placed", expected=st[key], observed=impl, name="C06_read_independent"))
     elif op[0] == "senc":
         ctx.count("senc")
-        if impl != "ok " + ms:
+        wt = op[1].split(",") if len(op) > 1 else []
+        if "f" in wt or "a0" in wt or "i" in wt:
+            # the stream fails part way: C06 only asks that the attempt leaves nothing behind for the next write (the
+            # lines that follow); what was accepted must be a prefix of the encoding
+            ctx.count("senc_failing_stream")
+            got = impl.split(" ", 1)[1] if " " in impl else ""
+            if impl.startswith("ok") or not ms.startswith(got if got != "-" else ""):
+                f.append(Finding("property", idx, "a write over a stream that fails part way reports success, or puts octets on the stream that are not the message's encoding", expected="err <prefix of %s>" % ms[:80], observed=impl[:200], name="C06_write"))
+        elif impl != "ok " + ms:
             f.append(Finding("property", idx, "writing over a partially accepting stream does not put exactly the message's encoding on the stream", expected="ok " + ms, observed=impl, name="C06_write"))
     else:
         ctx.count("op_" + op[0])
